@@ -28,6 +28,21 @@ CLAIMS = {
   technique=TECH + "loop-free full-domain harnesses per entry point of bind.c, OS hooks and bitmap predicates as contract stubs over ghost facts",
   text="For all 16 binding entry points of bind.c, every flag word, every policy value, every hook table (each hook independently present or missing) and every relation between the user's set and the topology/complete sets: invalid flags, invalid policy, empty or not-included sets give -1/EINVAL before any OS hook is called; a hook only ever receives the user's set or, when that covers the topology set, the complete set, with flags and policy unchanged; PROCESS/THREAD dispatch and the ENOSYS fallback are exact; no applicable hook gives -1/ENOSYS; temporary nodesets are freed on every path; on a topology that is not this system every hook is a dummy, set-calls return 0 without OS call and get-calls return the complete set (policy MIXED). Loop-free code over a full symbolic domain: complete.",
   note="Trusted: the abstract set model (bind.model.h) stands for the bitmap functions verified under C03 and for hwloc_cpuset_to/from_nodeset (C09, not claimed). The live-system sentences (kernel round trip, load restores the binding) are OS behaviour and not decided."),
+ "C05": dict(
+  category="other", design_ref="DESIGN.md section 3 (C05)",
+  technique=TECH + "bounded plain harnesses on the real base64.c (the only leaf of the XML round trip within reach)",
+  text="ONE LEAF ONLY, BOUNDED: hwloc_decode_from_base64(hwloc_encode_to_base64(x)) == x with the documented lengths and NUL termination for every byte string of length 0..4 with exact-size buffers (any access outside them is a bounds violation), a target one byte too small is refused; the decoder is memory safe on every 5-character string with every target size or NULL. The property itself -- export followed by import reproduces the topology, fixpoint, cross-backend, v2 -- is a relation between two unbounded object trees through two parsers and is not decided by this technique.",
+  note="Trusted: C-locale isspace, cbmc's strchr model; bounded (lengths <= 4/5, unwind 70)."),
+ "C13": dict(
+  category="proof", design_ref="DESIGN.md section 3 (C13)",
+  technique=TECH + "DFCC frame contract on hwloc_distances_add_create (rejection prefix)",
+  text="ONE CLAUSE ONLY: hwloc_distances_add_create rejects every kind word (all 2^64) that has unknown bits, more than one FROM_ bit or more than one MEANS_ bit with NULL/EINVAL, and an adopted topology with NULL/EPERM, assigning nothing but errno and never reaching the backend that would create the handle (so the list of distances is unchanged). Everything else in C13 (what is added is what is returned, filters, *nr, restrict/dup/XML, grouping, transforms) is not decided.",
+  note="Trusted: cbmc's __builtin_popcountll for hwloc_weight_long."),
+ "C16": dict(
+  category="proof", design_ref="DESIGN.md section 3 (C16)",
+  technique=TECH + "DFCC frame contract on hwloc_topology_diff_apply (rejection prefix)",
+  text="ONE CLAUSE ONLY: hwloc_topology_diff_apply with unknown flag bits returns -1/EINVAL, and on an adopted topology -1/EPERM, assigning nothing but errno and without applying any diff entry (hwloc_apply_diff_one is proved unreachable on these paths). Build/apply/reverse inversion, the -N return value with rollback, and XML export/load of diffs are not decided.",
+  note="none beyond cbmc/DFCC."),
  "C14": dict(
   category="proof", design_ref="DESIGN.md section 3 (C14)",
   technique=TECH + "loop-free full-domain harnesses for the best-of update steps; bounded harnesses (explicit small states, loops unwound) for get_best_target / get_best_initiator / register",
@@ -57,13 +72,10 @@ CLAIMS = {
 
 NOT_APPLICABLE = {
  "C01": "global well-formedness of an unbounded, cyclically linked object tree produced by hwloc_topology_load through backends, files and ~3000 lines of insertion code: neither the state predicate (no inductive heap predicates in CBMC contracts) nor load as a contract subject is expressible (DESIGN.md section 6)",
- "C05": "XML export/import round trip: whole-topology relation through two parsers and string formatting; only base64/escape leaf functions would be in reach (not built)",
  "C06": "arbitrary XML never corrupts memory: the import walks unbounded buffers and builds an unbounded tree; only bounded checks of the nolibxml scanners would be in reach (not built)",
  "C07": "synthetic parser/builder over strings up to 128 levels with strtoul/strchr cursors: invariants for the 390-line parser loop are out of budget (DESIGN.md section 6)",
  "C09": "every helper walks first_child/next_sibling/parent links of an unbounded tree and its spec quantifies over all objects; only the bitmap primitives are covered (C03)",
  "C12": "deep copy and absence of sharing over the whole heap; no ghost heap / separation predicates in CBMC contracts",
- "C13": "distances add/get/restrict/dup interleavings over lists and object arrays: only argument-rejection prefixes would be in reach (not built)",
- "C16": "diff build/apply/reverse over two unbounded trees; only the flag/EPERM prefix of diff_apply is covered (under C19)",
  "C17": "thread-safety: CBMC code contracts have no concurrency semantics",
  "C18": "snapshot discovery: file-system contents, component selection and fault sequences are outside any function contract",
  "C20": "command-line tools: process-level behaviour (argv, stdout) built on C01/C09",
